@@ -210,10 +210,14 @@ def check_case(case):
     return None
 
 
+def match_key(c):
+    return {'decoder': c['decoder'], 'code': c['code'], 'code_deformation': c.get('code_deformation')}
+
+
 def shrink(case):
     h = case['history']
     base = dict(case, mode='sequence')
-    if case.get('decoder') in D.TIMED_OUT:
+    if D._k(match_key, case) in D.TIMED_OUT:
         c1 = dict(base, history=h[:1])
         return c1 if check_case(c1) is not None else case
     if check_case(case) is None:
@@ -311,9 +315,7 @@ def n_calls(c):
 def oracle(ctx, deep=False, broken=None):
     cases = oracle_cases(ctx, deep)
     D.TIMED_OUT.clear()
-    fails = first_failures(cases, D.bounded(check_case),
-                           key=lambda c: {'decoder': c['decoder'], 'code': c['code'],
-                                          'code_deformation': c.get('code_deformation')})
+    fails = first_failures(cases, D.bounded(check_case, match_key), key=match_key)
     for f in fails:
         f['input'] = shrink(f['input'])
         f['observed'] = check_case(f['input']) or f['observed']
